@@ -149,9 +149,21 @@ func parseCommandLine() (*core.Metadata, string) {
 		runType
 }
 
+// Reports an error returned by stage code.  The job is only treated as
+// failed if something is written to the errors file, so an error with an
+// empty message must still write something.
+func writeError(errorFile *os.File, err error) {
+	if message := err.Error(); message != "" {
+		errorFile.Write([]byte(message))
+	} else {
+		fmt.Fprintf(errorFile,
+			"Stage code returned an error (%T) with an empty message.", err)
+	}
+}
+
 func runSplit(split SplitFunc, metadata *core.Metadata, errorFile *os.File) {
 	if stageDefs, err := split(metadata); err != nil {
-		errorFile.Write([]byte(err.Error()))
+		writeError(errorFile, err)
 	} else if stageDefs == nil {
 		errorFile.Write([]byte("Split returned nil."))
 	} else {
@@ -167,7 +179,7 @@ func runSplit(split SplitFunc, metadata *core.Metadata, errorFile *os.File) {
 
 func runMain(main MainFunc, metadata *core.Metadata, errorFile *os.File) {
 	if outs, err := main(metadata); err != nil {
-		errorFile.Write([]byte(err.Error()))
+		writeError(errorFile, err)
 	} else if outs != nil {
 		if err := metadata.Write(core.OutsFile, outs); err != nil {
 			fmt.Fprintf(errorFile, "Error writing outs: %v", err)
